@@ -142,18 +142,29 @@ func toGo(s *schema.Schema, t schema.Type, v val.Value, dst reflect.Value) error
 		if v.Body == nil {
 			return nil
 		}
-		for i, b := range d.Branches {
-			if b.Disc == v.Disc {
-				fd := field(dst, i)
-				p := reflect.New(fd.Type().Elem())
-				if err := toGo(s, schema.Type{Named: b.Def.Name}, *v.Body, p.Elem()); err != nil {
-					return err
+		set := func(disc uint8, body val.Value) error {
+			for i, b := range d.Branches {
+				if b.Disc == disc {
+					fd := field(dst, i)
+					p := reflect.New(fd.Type().Elem())
+					if err := toGo(s, schema.Type{Named: b.Def.Name}, body, p.Elem()); err != nil {
+						return err
+					}
+					fd.Set(p)
+					return nil
 				}
-				fd.Set(p)
-				return nil
+			}
+			return fmt.Errorf("union %s has no branch %d", d.Name, disc)
+		}
+		if err := set(v.Disc, *v.Body); err != nil {
+			return err
+		}
+		for _, a := range v.Also {
+			if err := set(a.Index, a.V); err != nil {
+				return err
 			}
 		}
-		return fmt.Errorf("union %s has no branch %d", d.Name, v.Disc)
+		return nil
 	}
 	return nil
 }
